@@ -708,6 +708,10 @@ def run_batch(ck: Check, jobs: list[dict], workers: int, log) -> list[dict]:
 def get_batch(ck: Check, log) -> list[dict]:
     CACHE.mkdir(exist_ok=True)
     jobs = jobs_for(ck.seed, ck.tier)
+    lim = os.environ.get('VERIF_PIPE_LIMIT')      # development aid: a prefix of the batch
+    if lim:
+        jobs = jobs[:int(lim)]
+        ck.coverage['batch_truncated_to'] = int(lim)
     key = hashlib.sha256(
         (repo_sha() + f'/{ck.seed}/{ck.tier}/{GEN_VERSION}/'
          + repr(jobs)).encode()).hexdigest()[:24]
